@@ -105,7 +105,7 @@ func Exhaustive() []*Node {
 type Cfg struct {
 	MaxDepth  int
 	MaxNodes  int
-	BigChance int // percent chance that a payload is drawn around a 64 KiB boundary
+	BigChance int  // percent chance that a payload is drawn around a 64 KiB boundary
 	Programs  bool // annotate with Via/Merge (write-program variety)
 }
 
